@@ -24,6 +24,7 @@ macro_rules! dispatch {
             "C09" => $f(&props::c09::C09, $($arg),*),
             "C10" => $f(&props::c10::C10, $($arg),*),
             "C12" => $f(&props::c12::C12, $($arg),*),
+            "C13" => $f(&props::c13::C13, $($arg),*),
             "C16" => $f(&props::c16::C16, $($arg),*),
             "C19" => $f(&props::c19::C19, $($arg),*),
             _ => { eprintln!("unknown property {}", $id); 2 }
